@@ -13,7 +13,7 @@ func (r *runner) SelfTest() error {
 	forged := Case{F: "gnosis", N: 2, T: 2, Signers: []int{0, 1}, Sigs: []Sig{{"ok", 0, ""}, {"ok", 2, ""}}, Mut: "", Ann: []string{"S"}, Key: "before"}
 	empty := Case{F: "service", N: 2, T: 2, Signers: []int{}, Sigs: []Sig{}, Mut: "", Ann: []string{"S"}, Key: "before"}
 	tg := Targets{Fn: true}
-	a, b, e := RunCase(u, &genuine, tg, nil), RunCase(u, &forged, tg, nil), RunCase(u, &empty, tg, nil)
+	a, b, e := RunCase(u, &genuine, tg, nil, nil), RunCase(u, &forged, tg, nil, nil), RunCase(u, &empty, tg, nil, nil)
 	if a.Obs[0].R != "accept" || b.Obs[0].R != "reject" || e.Obs[0].R != "accept" {
 		// not a binding problem: the real code misbehaves on the simplest cases; the plans report it
 		return nil
